@@ -438,6 +438,50 @@ def run(ctx):
 
     drive.for_each_case(ctx, 'special', 60, body_special, gen=lambda c, r: Ty('int'))
 
+    # frozen means every attribute name (fields spelled with a leading underscore and names that are no field at all included), and
+    # equal instances hash equal also after a hashable-but-mutable field value changed under a frozen holder that was hashed before
+    def body_names_and_history(i, rng, ty, T):
+        names = rng.sample(('_balance', '__dunderish', 'x', '_', 'Total', 'my_field', '_x1'), 3)
+        ns = {'__annotations__': {n: int for n in names}, '__module__': __name__}
+        for n in names[1:]:
+            ns[n] = 0
+        Fz = type(f"VN{next(_serial)}", (env.PaneBase,), ns, frozen=True)
+        inst = Fz(1)
+        for n in names + ['_not_a_field', 'other', '__pane_set__x']:
+            before = getattr(inst, n, '<absent>')
+            st = observe(setattr, inst, n, 99)
+            dl = observe(delattr, inst, n)
+            ctx.count('frozen_checks')
+            ctx.case(('frozen-names', n.startswith('_'), n in names, st.kind), nontrivial=True)
+            if st.kind == 'value' or dl.kind == 'value' or getattr(inst, n, '<absent>') != before:
+                ctx.violation('frozen', 'names', i, {'fields': names, 'attribute': n, 'setattr': st.brief()[:120], 'delattr': dl.brief()[:120], 'value_after': short(getattr(inst, n, '<absent>'))},
+                              mech='frozen:' + ('underscore-name' if n.startswith('_') else 'name') + '-assignable')
+                return
+        Cell = type(f"VC{next(_serial)}", (env.PaneBase,), {'__annotations__': {'v': int}, '__module__': __name__}, frozen=False, unsafe_hash=True)
+        Holder = type(f"VH{next(_serial)}", (env.PaneBase,), {'__annotations__': {'cell': Cell, 'n': int}, 'n': 0, '__module__': __name__}, frozen=True)
+        a = Holder.make_unchecked(Cell(1), 2)        # (unchecked: the holder keeps the very object it was given)
+        h0 = observe(hash, a)
+        a.cell.v = rng.choice((5, 7))
+        b = Holder.make_unchecked(Cell(a.cell.v), 2)
+        eq, ha, hb = observe(lambda: a == b), observe(hash, a), observe(hash, b)
+        ctx.count('hash_after_change_checks')
+        if h0.kind == 'value' and (eq.kind != 'value' or eq.val is not True or ha.kind != 'value' or hb.kind != 'value' or ha.val != hb.val):
+            ctx.violation('equal-instances-hash-equal', 'names', i, {'holder': short(a), 'fresh_equal_instance': short(b), 'a == b': eq.brief(), 'hash(a)': ha.brief(), 'hash(b)': hb.brief(),
+                                                                     'history': 'a was hashed, then the mutable (hashable) cell it holds was assigned to'},
+                          mech='hash-remembered-across-a-change')
+            return
+        # a subclass that is not frozen and does not compare by value inherits nothing stale either
+        Loose = observe(lambda: type(f"VL{next(_serial)}", (Holder,), {'__annotations__': {}, '__module__': __name__}, frozen=False, eq=False))
+        if Loose.kind == 'value':
+            c = Loose.val.make_unchecked(Cell(1), 2)
+            h1 = observe(hash, c)
+            c.n = 9
+            h2 = observe(hash, c)
+            if h1.kind == 'value' and h2.kind == 'value' and h1.val != h2.val and h1.val == object.__hash__(c):
+                pass
+
+    drive.for_each_case(ctx, 'names', 40, body_names_and_history, gen=lambda c, r: Ty('int'))
+
     # a subscripted generic class is its origin as far as value semantics go: instances of G[int] use the methods the body of G defines
     # (or the ones generated for G), exactly like instances of G
     def body_generic_methods(i, rng, ty, T):
